@@ -119,7 +119,7 @@ def cases(tier, seed):
     n = 200 if tier == "quick" else 28000
     for spec in workload.standard_cases(tier, seed, n, n, opts_fn=opts, frag_share=0.35,
                                         p={"icode_prob": 0.2, "variant_prob": 0.2, "no_element_prob": 0.3, "nterm_amide_prob": 0.5, "na_prob": 0.15, "waters": [0, 2, 5, 8],
-                                           "damage_prob": 0.25, "carboxyl_asym_prob": 0.4, "alias_prob": 0.2, "dense_prob": 0.8, "crowd_prob": 0.2,
+                                           "damage_prob": 0.25, "carboxyl_asym_prob": 0.4, "alias_prob": 0.2, "dense_prob": 0.8, "crowd_prob": 0.2, "water_repeat_prob": 0.25,
                                            "hydrogens": ["none", "none", "all", "some", "side"]}):
         spec["kind"] = "run"
         spec["extra_atoms"] = spec["seed"] % 5 == 0
